@@ -95,6 +95,9 @@ type bcall struct {
 
 // JudgeBlocking is the oracle of C18.
 func JudgeBlocking(p Program, x *Execution) string {
+	if p.NotifyOnly {
+		return judgeNotify(p, x)
+	}
 	var calls []bcall
 	for ti := range p.Threads {
 		for ci, name := range p.Threads[ti] {
@@ -269,6 +272,188 @@ func JudgeBlocking(p Program, x *Execution) string {
 		if msg := Linearizable(q, y); msg != "" {
 			return msg
 		}
+	}
+	return ""
+}
+
+// ---- C18, notifier layer: pkg/notify alone with more waiters -------------------
+
+func wt(ctx int, off int64) string { return fmt.Sprintf("Wait:%d,%d", ctx, off) }
+
+// ProgramsNotify returns notifier-only programs: W waiters (offsets below,
+// at, above the start offset), P setters (advancing and not), cancel, Close.
+func ProgramsNotify(tier string) []Program {
+	var ps []Program
+	const start = 2
+	add := func(threads ...[]string) {
+		ps = append(ps, Program{Name: fmt.Sprintf("n%03d", len(ps)), NotifyOnly: true, Notify: start, Block: true, Threads: threads})
+	}
+	offs := []int64{1, 2, 3}
+	maxW := 3
+	if tier == "thorough" {
+		maxW = 4
+	}
+	// every multiset of waiter offsets of size 1..maxW, against one and two setters
+	var rec func(k int, from int, cur []int64)
+	rec = func(k, from int, cur []int64) {
+		if len(cur) > 0 {
+			var ws [][]string
+			for i, o := range cur {
+				ws = append(ws, []string{wt(i, o)})
+			}
+			add(append(ws, []string{"Set:3"})...)
+			add(append(ws, []string{"Set:4"})...)
+			add(append(ws, []string{"Set:2"})...) // does not advance
+			add(append(ws, []string{"Set:3"}, []string{"Set:4"})...)
+			add(append(ws, []string{"Set:3", "Set:4"})...)
+			add(append(ws, []string{"NClose"})...)
+			add(append(ws, []string{"Set:3"}, []string{"NClose"})...)
+			add(append(ws, []string{"Cancel:0"})...)
+			add(append(ws, []string{"Set:3"}, []string{"Cancel:0"})...)
+			if len(cur) <= 2 {
+				add(ws...) // nothing happens
+				add(append(ws, []string{"Set:4"}, []string{"Set:3"}, []string{"Cancel:0"})...)
+			}
+		}
+		if len(cur) == k {
+			return
+		}
+		for i := from; i < len(offs); i++ {
+			rec(k, i, append(append([]int64{}, cur...), offs[i]))
+		}
+	}
+	rec(maxW, 0, nil)
+	add([]string{"NClose"}, []string{"NClose"})
+	add([]string{"NClose", wt(0, 2)})
+	add([]string{"NClose", wt(0, 1)})
+	add([]string{"Set:3", wt(0, 2)}, []string{wt(1, 3)})
+	// drop duplicates created by the recursion
+	seen := map[string]bool{}
+	var out []Program
+	for _, p := range ps {
+		ts := make([]string, len(p.Threads))
+		for i, t := range p.Threads {
+			ts[i] = strings.Join(t, ";")
+		}
+		k := strings.Join(ts, "||")
+		if !seen[k] {
+			seen[k] = true
+			p.Name = fmt.Sprintf("n%03d", len(out))
+			out = append(out, p)
+		}
+	}
+	return out
+}
+
+func judgeNotify(p Program, x *Execution) string {
+	var calls []bcall
+	for ti := range p.Threads {
+		for ci, name := range p.Threads[ti] {
+			op, arg, _ := strings.Cut(name, ":")
+			bc := bcall{t: ti, c: ci, name: name, op: op, args: ints(arg), inv: -1, ret: 1 << 30, res: x.Results[ti][ci]}
+			for _, h := range x.Hist {
+				if h.Thread == ti && h.Call == ci {
+					if h.Ret {
+						bc.ret = h.Step
+					} else {
+						bc.inv = h.Step
+					}
+				}
+			}
+			calls = append(calls, bc)
+		}
+	}
+	final := p.Notify
+	hasClose := false
+	for _, c := range calls {
+		if c.res.Panic != "" {
+			return fmt.Sprintf("T%d %s panicked: %s", c.t, c.name, c.res.Panic)
+		}
+		if c.op == "Set" && c.args[0] > final {
+			final = c.args[0]
+		}
+		if c.op == "NClose" {
+			hasClose = true
+		}
+	}
+	for _, c := range calls {
+		if c.op != "Wait" {
+			continue
+		}
+		ctx, off := int(c.args[0]), c.args[1]
+		what := fmt.Sprintf("T%d %s [%d,%d] -> (%s)", c.t, c.name, c.inv, c.ret, c.res.Err)
+		cancelled, cancelledBefore, wake, closeBegan, closedBefore := false, false, false, false, false
+		below := off < p.Notify
+		for _, d := range calls {
+			switch d.op {
+			case "Cancel":
+				if int(d.args[0]) == ctx {
+					cancelled = true
+					if d.inv < c.ret {
+						cancelledBefore = true
+					}
+				}
+			case "Set":
+				if d.inv < c.ret {
+					wake = true
+				}
+				if d.ret < c.inv && off < d.args[0] {
+					below = true
+				}
+			case "NClose":
+				if d.inv < c.ret {
+					wake, closeBegan = true, true
+				}
+				if d.ret < c.inv && d.res.Err == "ok" {
+					closedBefore = true
+				}
+			}
+		}
+		parked := x.Parked != nil && x.Parked[c.t] && c.c == len(p.Threads[c.t])-1
+		ever := x.EverParked != nil && x.EverParked[c.t]
+		if parked {
+			if off < final || cancelled || hasClose {
+				return fmt.Sprintf("lost wake-up: %s is still parked although the offset is %d (cancelled=%v, closed=%v)", what, final, cancelled, hasClose)
+			}
+			if below {
+				return fmt.Sprintf("%s parked although its offset was below the notifier's when it began", what)
+			}
+			continue
+		}
+		if below && ever {
+			return fmt.Sprintf("%s had to wait although its offset was below the notifier's when it began", what)
+		}
+		switch c.res.Err {
+		case "ok":
+			if !below && !wake {
+				return fmt.Sprintf("%s returned although no Set or Close had begun", what)
+			}
+			if closedBefore && !below {
+				return fmt.Sprintf("%s started after Close had returned, at or beyond the offset, and did not fail", what)
+			}
+		case "ctx":
+			if !cancelledBefore {
+				return fmt.Sprintf("%s returned a context error although its context was not cancelled", what)
+			}
+		case "closed":
+			if !closeBegan {
+				return fmt.Sprintf("%s failed as closed although Close had not begun", what)
+			}
+		default:
+			return fmt.Sprintf("%s failed", what)
+		}
+	}
+	nclose, okclose := 0, 0
+	for _, c := range calls {
+		if c.op == "NClose" {
+			nclose++
+			if c.res.Err == "ok" {
+				okclose++
+			}
+		}
+	}
+	if nclose > 0 && okclose != 1 {
+		return fmt.Sprintf("%d of %d Close calls succeeded, want exactly 1", okclose, nclose)
 	}
 	return ""
 }
